@@ -1457,7 +1457,15 @@ def check(run, db, tier):
         if k_ not in krole:
             raise AnalysisError('keystone aperture: returned dictionaries have no plain entry %r (got %s)' % (k_, sorted(krole)))
     seg_loop = _innermost_loop_with(fk, krole['windows'])
-    klists = sorted({a[0] for a in _appends(seg_loop.body)}) if seg_loop is not None else []
+    # a list that the pass over one segment (re)binds itself is scratch of that pass (e.g. the points of a bounding box), not a
+    # per-segment ledger: what is appended to it, and how often, says nothing about the lists going out of step
+    scratch = set()
+    if seg_loop is not None:
+        for st_ in seg_loop.body:
+            for n_ in ast.walk(st_):
+                if isinstance(n_, ast.Name) and isinstance(n_.ctx, ast.Store):
+                    scratch.add(n_.id)
+    klists = sorted({a[0] for a in _appends(seg_loop.body)} - scratch) if seg_loop is not None else []
     if len(klists) < 8:
         raise AnalysisError('keystone aperture: fewer than eight per-segment lists found (%s)' % klists)
     run.group(lockstep, run, fk, klists, krole['amplitude_mask'], krole['windows'], krole['masks'])
